@@ -163,6 +163,24 @@ def main(ck, tier, w):
     ck.cov['worker_threads_observed'] = len(workers)
     ck.sample({'evaluation_orders_observed': [list(o) for o in list(orders)[:3]], 'threads_seen': workers[:20]})
 
+    # ---- the wall clock is not an input: block timestamps around and beyond "now" change nothing, with or without --verify
+    import time as _time
+    now = int(_time.time())
+    stamps = [now - 3600, now + 3600, now + 7200 + 5, now + 3 * 3600, 2 ** 32 - 1, 1]
+    ghdr, gtxs = btc.genesis_block(coin)
+    tblocks = [{'hdr': ghdr, 'hash': btc.sha256d(ghdr), 'txs': gtxs, 'raw': btc.ser_block(ghdr, gtxs)}]
+    for h, t in enumerate(stamps, 1):
+        tblocks.append(datadir.mk_block(tblocks[-1]['hash'], chains.std_txs(h, coin), t=t, nonce=h))
+    tdir = datadir.simple_dir(w.sub('dd'), tblocks, coin).write()
+    plain = run.run_parser(tdir, 'csvdump', dump=w.mk('out'))
+    verified = run.run_parser(tdir, 'csvdump', dump=w.mk('out'), verify=True)
+    ck.evals(2)
+    ck.distinct(('clock', now // 3600))
+    if plain.rc != 0 or verified.rc != 0 or plain.files != verified.files:
+        ck.violation('a consistent chain with block timestamps around the current time gives exit %d / %d with and without --verify (the '
+                     'result depends on the clock): %s' % (plain.rc, verified.rc, verified.stderr[-200:]),
+                     {'timestamps': stamps, 'now': now, 'observed': verified.brief(), 'tags': []})
+
     # ---- an index that does not determine the tip (several usable tips of equal height and validity): whatever chain is
     # chosen, it must be the same one in every run
     from checks import c04
